@@ -30,6 +30,7 @@ import (
 	coreerrors "tunnox-core/internal/core/errors"
 	"tunnox-core/internal/core/idgen"
 	"tunnox-core/internal/core/storage"
+	"tunnox-core/internal/core/storage/hybrid"
 	"tunnox-core/internal/core/storage/memory"
 	"tunnox-core/internal/utils/random"
 )
@@ -56,8 +57,56 @@ const (
 	opOther    = 20
 )
 
-const claimPrefix = "tunnox:runtime:conncode:claim:"
-const admitPrefix = "tunnox:runtime:conncode:admit:"
+// key prefixes of the claim and admission markers: probed from the real repository methods at start-up (a rename in
+// the code must not blind the gate); the literals are the fallback for trees that have no such method
+var claimPrefix = "tunnox:runtime:conncode:claim:"
+var admitPrefix = "tunnox:runtime:conncode:admit:"
+
+// fullStore is what the repositories need from a store; memory.Storage and hybrid.Storage both provide it
+type fullStore interface {
+	storage.Storage
+	storage.ListStore
+	storage.CASStore
+}
+
+// keyRecorder records the keys of SetNX calls (used once, to learn the marker key names)
+type keyRecorder struct {
+	*memory.Storage
+	keys []string
+}
+
+func (r *keyRecorder) SetNX(key string, value any, ttl time.Duration) (bool, error) {
+	r.keys = append(r.keys, key)
+	return r.Storage.SetNX(key, value, ttl)
+}
+
+var probeKeysOnce sync.Once
+
+func probeKeys() {
+	probeKeysOnce.Do(func() {
+		ctx, cancel := context.WithCancel(context.Background())
+		defer cancel()
+		rec := &keyRecorder{Storage: memory.New(ctx)}
+		repo := repos.NewConnectionCodeRepository(repos.NewRepository(rec))
+		v := reflect.ValueOf(repo)
+		code := &models.TunnelConnectionCode{ID: "conncode_probe", Code: "prb-prb-prb", TargetClientID: 1, TargetAddress: "tcp://1.1.1.1:1",
+			ActivationTTL: time.Hour, MappingDuration: time.Hour, CreatedAt: time.Now(), ActivationExpiresAt: time.Now().Add(time.Hour)}
+		if m := v.MethodByName("Claim"); m.IsValid() {
+			rec.keys = nil
+			m.Call([]reflect.Value{reflect.ValueOf(code)})
+			if len(rec.keys) == 1 && strings.HasSuffix(rec.keys[0], code.Code) {
+				claimPrefix = strings.TrimSuffix(rec.keys[0], code.Code)
+			}
+		}
+		if m := v.MethodByName("AcquireAdmission"); m.IsValid() {
+			rec.keys = nil
+			m.Call([]reflect.Value{reflect.ValueOf("mappings"), reflect.ValueOf(int64(424242)), reflect.ValueOf(time.Minute)})
+			if len(rec.keys) == 1 && strings.HasSuffix(rec.keys[0], "mappings:424242") {
+				admitPrefix = strings.TrimSuffix(rec.keys[0], "mappings:424242")
+			}
+		}
+	})
+}
 
 var errInjected = errors.New("verif: injected storage failure")
 
@@ -68,7 +117,7 @@ type gate struct {
 
 type gatedStore struct {
 	storage.Storage // raw store: ungated passthrough for everything not overridden
-	raw             *memory.Storage
+	raw             fullStore // the caller's node store: one memory store, or the node's hybrid storage in a cluster world
 	idx             int
 	g               *gate
 	faultAt         int // index among this caller's forward writes (Set/SetNX/AppendToList) that fails; -1 none
@@ -81,11 +130,19 @@ type gatedStore struct {
 	owner           map[string]int // mapping id -> caller that wrote (or tried to write) its main record
 }
 
-func (s *gatedStore) park(op int) {
+func (s *gatedStore) park(op int, key string) {
 	s.g.arrive <- s.idx
 	<-s.g.resume[s.idx]
 	s.trace = append(s.trace, op)
+	s.mu.Lock()
+	if _, ok := seenKeys[op]; !ok {
+		seenKeys[op] = key
+	}
+	s.mu.Unlock()
 }
+
+// first key seen per gate-op code (gen: the key families the activation / revocation touch)
+var seenKeys = map[int]string{}
 
 func (s *gatedStore) forwardFault() bool {
 	k := s.writes
@@ -102,11 +159,11 @@ func (s *gatedStore) Get(key string) (any, error) {
 	case strings.HasPrefix(key, constants.KeyPrefixPortMapping+":"):
 		return s.raw.Get(key) // merged into the preceding action
 	case strings.HasPrefix(key, constants.KeyPrefixRuntimeConnectionCodeByCode):
-		s.park(opGetCode)
+		s.park(opGetCode, key)
 	case strings.HasPrefix(key, constants.KeyPrefixRuntimeConnectionCodeByID):
-		s.park(opGetID)
+		s.park(opGetID, key)
 	default:
-		s.park(opOther)
+		s.park(opOther, key)
 	}
 	return s.raw.Get(key)
 }
@@ -118,13 +175,13 @@ func (s *gatedStore) Set(key string, value any, ttl time.Duration) error {
 		s.mu.Lock()
 		s.owner[id] = s.idx
 		s.mu.Unlock()
-		s.park(opSetMain)
+		s.park(opSetMain, key)
 	case strings.HasPrefix(key, constants.KeyPrefixRuntimeConnectionCodeByCode):
-		s.park(opSetCode)
+		s.park(opSetCode, key)
 	case strings.HasPrefix(key, constants.KeyPrefixRuntimeConnectionCodeByID):
-		s.park(opSetID)
+		s.park(opSetID, key)
 	default:
-		s.park(opOther)
+		s.park(opOther, key)
 	}
 	if s.forwardFault() {
 		return errInjected
@@ -135,29 +192,29 @@ func (s *gatedStore) Set(key string, value any, ttl time.Duration) error {
 func (s *gatedStore) Delete(key string) error {
 	switch {
 	case strings.HasPrefix(key, constants.KeyPrefixPortMapping+":"):
-		s.park(opDelMain)
+		s.park(opDelMain, key)
 	case strings.HasPrefix(key, claimPrefix):
-		s.park(opDelClaim)
+		s.park(opDelClaim, key)
 	case strings.HasPrefix(key, admitPrefix):
-		s.park(opRelAdm)
+		s.park(opRelAdm, key)
 	default:
-		s.park(opOther)
+		s.park(opOther, key)
 	}
 	return s.raw.Delete(key)
 }
 
 func (s *gatedStore) Exists(key string) (bool, error) {
-	s.park(opOther)
+	s.park(opOther, key)
 	return s.raw.Exists(key)
 }
 
 func (s *gatedStore) SetNX(key string, value any, ttl time.Duration) (bool, error) {
 	if strings.HasPrefix(key, claimPrefix) {
-		s.park(opClaim)
+		s.park(opClaim, key)
 	} else if strings.HasPrefix(key, admitPrefix) {
-		s.park(opAdmit)
+		s.park(opAdmit, key)
 	} else {
-		s.park(opOther)
+		s.park(opOther, key)
 	}
 	if s.forwardFault() {
 		return false, errInjected
@@ -166,7 +223,7 @@ func (s *gatedStore) SetNX(key string, value any, ttl time.Duration) (bool, erro
 }
 
 func (s *gatedStore) CompareAndSwap(key string, o, n any, ttl time.Duration) (bool, error) {
-	s.park(opOther)
+	s.park(opOther, key)
 	if s.forwardFault() {
 		return false, errInjected
 	}
@@ -174,7 +231,7 @@ func (s *gatedStore) CompareAndSwap(key string, o, n any, ttl time.Duration) (bo
 }
 
 func (s *gatedStore) SetList(key string, values []any, ttl time.Duration) error {
-	s.park(opOther)
+	s.park(opOther, key)
 	if s.forwardFault() {
 		return errInjected
 	}
@@ -183,9 +240,9 @@ func (s *gatedStore) SetList(key string, values []any, ttl time.Duration) error 
 
 func (s *gatedStore) GetList(key string) ([]any, error) {
 	if strings.HasPrefix(key, constants.KeyPrefixClientMappings+":") {
-		s.park(opQuota)
+		s.park(opQuota, key)
 	} else {
-		s.park(opOther)
+		s.park(opOther, key)
 	}
 	return s.raw.GetList(key)
 }
@@ -193,16 +250,16 @@ func (s *gatedStore) GetList(key string) ([]any, error) {
 func (s *gatedStore) AppendToList(key string, value any) error {
 	switch {
 	case key == constants.KeyPrefixMappingList:
-		s.park(opAppGlob)
+		s.park(opAppGlob, key)
 	case strings.HasPrefix(key, constants.KeyPrefixClientMappings+":"):
 		if s.appIdx == 0 {
-			s.park(opAppIdxL)
+			s.park(opAppIdxL, key)
 		} else {
-			s.park(opAppIdxT)
+			s.park(opAppIdxT, key)
 		}
 		s.appIdx++
 	default:
-		s.park(opOther)
+		s.park(opOther, key)
 	}
 	if s.forwardFault() {
 		return errInjected
@@ -213,13 +270,13 @@ func (s *gatedStore) AppendToList(key string, value any) error {
 func (s *gatedStore) RemoveFromList(key string, value any) error {
 	switch {
 	case key == constants.KeyPrefixMappingList:
-		s.park(opRmGlob)
+		s.park(opRmGlob, key)
 	case key == s.listenKey:
-		s.park(opRmIdxL)
+		s.park(opRmIdxL, key)
 	case strings.HasPrefix(key, constants.KeyPrefixClientMappings+":"):
-		s.park(opRmIdxT)
+		s.park(opRmIdxT, key)
 	default:
-		s.park(opOther)
+		s.park(opOther, key)
 	}
 	return s.raw.RemoveFromList(key, value)
 }
@@ -245,6 +302,7 @@ type caseIn struct {
 	TAddr   int        `json:"taddr"`
 	Threads []thrIn    `json:"threads"`
 	Sched   []int      `json:"sched"`
+	World   string     `json:"world"` // "" = one memory store; "cluster" = every caller on its own node: hybrid storage with a private local cache, ONE shared cache, stock DefaultConfig routing
 }
 type thrOut struct {
 	Res     int   `json:"res"` // 0 ok, else error enum
@@ -311,6 +369,16 @@ type stack struct {
 	svc    *services.ConnectionCodeService
 }
 
+// view = what an observer of the cluster sees: a fresh node (empty local cache) for point reads, the shared cache for scans
+type view struct {
+	node fullStore
+	scan *memory.Storage
+}
+
+func newNode(ctx context.Context, shared *memory.Storage) fullStore {
+	return hybrid.NewWithSharedCache(ctx, memory.New(ctx), shared, nil, hybrid.DefaultConfig())
+}
+
 func newStack(ctx context.Context, st storage.Storage, raw storage.Storage, qmax int) *stack {
 	repo := repos.NewRepository(st)
 	k := &stack{ccRepo: repos.NewConnectionCodeRepository(repo), pmRepo: repos.NewPortMappingRepo(repo)}
@@ -366,9 +434,17 @@ func idxOf(xs []string, s string) int64 {
 
 func runSched(c caseIn) *caseOut {
 	out := &caseOut{Claim: hasClaim(), Cleanup: hasCleanup(), Admit: hasAdmit(), Viol: []viol{}, Sched: []int{}}
+	probeKeys()
 	ctx, cancel := context.WithCancel(context.Background())
 	defer cancel()
-	raw := memory.New(ctx)
+	base := memory.New(ctx) // the one store (single world) or the shared cache (cluster world)
+	cluster := c.World == "cluster"
+	var raw fullStore = base // store of the setup node / of the observer
+	obs := view{node: base, scan: base}
+	if cluster {
+		raw = newNode(ctx, base)
+		obs = view{node: newNode(ctx, base), scan: base}
+	}
 	n := len(c.Threads)
 	tickIdx := -1
 	for i, t := range c.Threads {
@@ -427,10 +503,14 @@ func runSched(c caseIn) *caseOut {
 		if t.Kind == "tick" {
 			continue
 		}
-		st := &gatedStore{Storage: raw, raw: raw, idx: i, g: g, faultAt: t.Fault, mu: &mu, owner: owner,
+		var nodeStore fullStore = base
+		if cluster {
+			nodeStore = newNode(ctx, base) // this caller's node
+		}
+		st := &gatedStore{Storage: nodeStore, raw: nodeStore, idx: i, g: g, faultAt: t.Fault, mu: &mu, owner: owner,
 			listenKey: fmt.Sprintf("%s:%s", constants.KeyPrefixClientMappings, random.Int64ToString(t.Listen))}
 		stores[i] = st
-		sk := newStack(ctx, st, raw, c.QMax)
+		sk := newStack(ctx, st, nodeStore, c.QMax)
 		go func(i int, t thrIn, sk *stack) {
 			defer close(done[i])
 			code := codeStr
@@ -533,7 +613,7 @@ func runSched(c caseIn) *caseOut {
 		}
 		return -2
 	}
-	mains, _ := raw.QueryByPrefix(constants.KeyPrefixPortMapping+":", 0)
+	mains, _ := obs.scan.QueryByPrefix(constants.KeyPrefixPortMapping+":", 0)
 	type mrow struct {
 		row []int64
 		m   models.PortMapping
@@ -554,7 +634,7 @@ func runSched(c caseIn) *caseOut {
 	}
 	listOwners := func(key string) []int {
 		res := []int{}
-		l, err := raw.GetList(key)
+		l, err := obs.node.GetList(key)
 		if err != nil {
 			return res
 		}
@@ -588,7 +668,7 @@ func runSched(c caseIn) *caseOut {
 		}
 	}
 	rec := func(key string) []int64 {
-		v, err := raw.Get(key)
+		v, err := obs.node.Get(key)
 		if err != nil {
 			return []int64{0, 0, 0, 0, 0}
 		}
@@ -616,8 +696,8 @@ func runSched(c caseIn) *caseOut {
 	}
 	out.ByCode = rec(constants.KeyPrefixRuntimeConnectionCodeByCode + cc.Code)
 	out.ByID = rec(constants.KeyPrefixRuntimeConnectionCodeByID + cc.ID)
-	out.ClaimSet, _ = raw.Exists(claimPrefix + cc.Code)
-	if am, err := raw.QueryByPrefix(admitPrefix+"mappings:", 0); err == nil {
+	out.ClaimSet, _ = obs.node.Exists(claimPrefix + cc.Code)
+	if am, err := obs.scan.QueryByPrefix(admitPrefix+"mappings:", 0); err == nil {
 		out.AdmitKeys = len(am)
 	}
 
@@ -815,6 +895,7 @@ func coqBytes(s string) string {
 }
 
 func gen() {
+	probeKeys()
 	cfg := services.DefaultConnectionCodeServiceConfig()
 	fmt.Println("(* generated by verif_c06 gen from the repository's working tree — do not edit *)")
 	fmt.Println("From Coq Require Import NArith List. Import ListNotations.")
@@ -838,6 +919,26 @@ func gen() {
 		ft = append(ft, coqNatList(soloTrace("act", k)))
 	}
 	fmt.Printf("Definition solo_activate_fault_traces : list (list nat) := [%s].\n", strings.Join(ft, "; "))
+	// storage category hybrid.DefaultConfig() assigns to every key family touched by the runs above
+	// (0 runtime = node-local cache only, 1 persistent, 2 shared, 3 shared+persistent), keyed by gate-op code
+	ctx, cancel := context.WithCancel(context.Background())
+	defer cancel()
+	hs := newNode(ctx, memory.New(ctx)).(*hybrid.Storage)
+	var ops []int
+	for op := range seenKeys {
+		ops = append(ops, op)
+	}
+	sort.Ints(ops)
+	var kc []string
+	for _, op := range ops {
+		kc = append(kc, fmt.Sprintf("(%d, %d)", op, int(hs.VerifCategory(seenKeys[op]))))
+		fam := seenKeys[op]
+		if i := strings.LastIndex(fam, ":"); i >= 0 {
+			fam = fam[:i+1] + "<id>"
+		}
+		fmt.Printf("(* op %d: %s *)\n", op, fam)
+	}
+	fmt.Printf("Definition key_categories : list (nat * nat) := [%s].\n", strings.Join(kc, "; "))
 }
 
 func main() {
